@@ -33,7 +33,7 @@ Verdict legend
 | html/boxes/build.go:494                | collectMissingTargetCounter| missingCounters                    | ANY |
 | html/boxes/build.go:770,810,852        | parseAgain closures        | cachedCounterValues                | COPY |
 | html/boxes/build.go:1301               | wrapTable                  | pr.TableWrapperBoxProperties       | DISJ: moves property `name` from the table style to the wrapper style, one property per iteration |
-| html/document/document.go:319          | resolveLinks               | page.anchors                       | **DEP** KF15-1 — MODEL resolveAnchors: anchors_not_perm_invariant, anchors_perm_invariant_partial, links_perm_invariant, anchors_sorted_perm_invariant |
+| html/document/document.go:321          | resolveLinks               | page.anchors                       | MODEL resolveLinks: names collected then SORTED (fix 37ac465 of F15-1/KF15-1): anchors_perm_invariant, resolve_links_perm_invariant; before the fix **DEP**: anchors_before_fix_not_perm_invariant |
 | html/layout/blocks.go:488              | blockContainerLayout       | brokenOutOfFlow                    | COPY into context.brokenOutOfFlow (the ORDER problem is where that map is ranged: pages.go:725) |
 | html/layout/grid.go:26                 | intersectWithChildren      | positions                          | ANY |
 | html/layout/grid.go:268                | getColumnPlacement         | childrenPositions                  | DISJ/ANY: union of occupied columns into a set |
